@@ -144,6 +144,75 @@ def history(rng):
     return case
 
 
+FULL = {"V": 1023, "C": 341, "NB": 43}
+EDGE_CORES = [0, 1, 7, 8, 9, 15, 16, 63, 64, 127, 128, 255, 256, 335, 336, 339, 340]
+
+
+def history_full(rng):
+    """The same walk in the full-size configuration (V = 1023, C = 341, 43 bitfield octets): thresholds 682 / 683 of 1023 and
+    bit positions across octet boundaries.  Inputs only."""
+    Vf, Cf, NB = FULL["V"], FULL["C"], FULL["NB"]
+    tau = 1000 + rng.n(5000)
+    nid = [0]
+
+    def fresh():
+        nid[0] += 1
+        return nid[0]
+    cores = sorted(set(sample(rng, EDGE_CORES, 5) + [rng.n(Cf) for _ in range(3)]))
+    rho = {c: [fresh(), tau - rng.n(U)] for c in cores if rng.n(4)}
+    case = {"tau": tau, "rho": {str(c): list(v) for c, v in rho.items()}, "blocks": []}
+    for _ in range(rng.pick([2, 3, 3, 4])):
+        slot = tau + rng.pick([1, 1, 1, 2, 3, 4, 5, 6])
+        judge_ids = []
+        if rho and rng.n(5) == 0:
+            judge_ids = [rho[c][0] for c in sample(rng, sorted(rho), 1)]
+        live = [c for c in sorted(rho) if rho[c][0] not in judge_ids]
+        sets = {c: set(sample(rng, range(Vf), rng.pick([0, 341, 682, 682, 683, 683, 684, 1023]))) for c in live}
+        valid = True
+        m = rng.n(20)
+        if m == 0:                                              # a bit on a core without (live) report, next to a live one
+            c = (rng.pick(live) + rng.pick([1, -1, 8])) % Cf if live else rng.n(Cf)
+            if c not in live:
+                sets[c] = {rng.n(Vf)}; valid = False
+        zero = rng.n(2) == 0
+        as_ = []
+        for v in range(Vf):
+            f = [0] * NB
+            for c, sv in sets.items():
+                if v in sv:
+                    f[c // 8] |= 1 << (c % 8)
+            if zero or any(f):
+                as_.append({"v": v, "f": f, "anchor": "ok", "sig": "ok"})
+        if as_:
+            i = rng.n(len(as_))
+            if m == 1:
+                as_[i]["sig"] = rng.pick(SIGK); valid = False
+            elif m == 2:
+                as_[i]["anchor"] = "bad"; valid = False
+            elif m == 3 and len(as_) > 1:
+                j = rng.n(len(as_) - 1); as_[j], as_[j + 1] = as_[j + 1], as_[j]; valid = False
+            elif m == 4:
+                as_[-1]["v"] = rng.pick([1023, 1024, 65535]); valid = False
+            elif m == 5:
+                as_[i]["f"][NB - 1] |= rng.pick([0x20, 0x40, 0x80]); valid = False
+        free = [c for c in cores if c not in rho or rho[c][0] in judge_ids or 3 * len(sets.get(c, ())) > 2 * Vf or slot >= rho[c][1] + U]
+        place = []
+        for c in cores:
+            if c in free and rng.n(2):
+                place.append([c, fresh()])
+            elif c not in free and rng.n(30) == 0:
+                place.append([c, fresh()])
+        engaged = any(p[0] not in free for p in place)
+        case["blocks"].append({"slot": slot, "judge": judge_ids, "as": as_, "place": place})
+        if valid and not engaged:
+            for c in free:
+                rho.pop(c, None)
+            for c, r in place:
+                rho[c] = [r, slot]
+            tau = slot
+    return case
+
+
 def cases_from_replay(path):
     cases, cur = [], None
     for ln in vf.read_lines(path):
@@ -188,6 +257,28 @@ def mc_one(ctx, label, consts, workers, cover=False, vacuity=False):
                 raise vf.Infra("vacuous model check: action %s never taken (%s)" % (a, acts))
 
 
+def execute(ctx, binp, casep, mode):
+    """X-step for one configuration ("tiny" V=6 C=2 / "full" V=1023 C=341): returns the trace lines and the Block lines."""
+    tp = ctx.tmp + "/trace-%s.ndjson" % mode
+    vf.run_driver(ctx, binp, "TestVerifAssurances", env={"VF_CASES": casep, "VF_OUT": tp, "VF_SEED": ctx.seed, "VF_MODE": mode}, timeout=1500)
+    lines = vf.read_lines(tp)
+    blocks = [ln for ln in lines if '"ev":"Block"' in ln]
+    refused = [ln for ln in blocks if '"stage":"disputes"' in ln]
+    if refused:
+        raise vf.Infra("the driver's own disputes extrinsic was refused (generator / driver problem, %s): %s" % (mode, refused[0][-400:]))
+    return lines, blocks
+
+
+def tally(blocks):
+    stages, errs, avail = {}, {}, 0
+    for ln in blocks:
+        e = json.loads(ln)
+        stages[e["stage"]] = stages.get(e["stage"], 0) + 1
+        errs[e["err"] or "accepted"] = errs.get(e["err"] or "accepted", 0) + 1
+        avail += len(e["w"]) if e["stage"] in ("ok", "reports") else 0
+    return stages, errs, avail
+
+
 def run(ctx):
     ctx.assumptions += [
         "Ed25519 and Blake2b primitives trusted (crypto/ed25519 signs, x/crypto blake2b hashes, the repository verifies with ed25519consensus); the signed payload is the Gray Paper's: jam_available ++ H(parent ++ bitfield octets)",
@@ -197,59 +288,63 @@ def run(ctx):
         "posterior rho becomes the prior rho of the next block the way ChainState.StateCommit moves it (same slice); after a refused block the prior rho is reloaded from a copy",
     ]
     q = ctx.quick
+    kw = dict(stateful=True, invariants=INVS_TRACE, heap="3g", timeout=3000)
     with cf.ThreadPoolExecutor(6) as ex:
         build_f = ex.submit(vf.build_driver, ctx, "assurances", "./internal/verifdrv/assurances", FILES)
         if ctx.replay:
+            first = json.loads(vf.read_lines(ctx.replay)[0])
+            mode = "full" if first.get("C", C) == FULL["C"] else "tiny"
             casep = ctx.tmp + "/replay-cases.ndjson"
             with open(casep, "w") as f:
                 for c in cases_from_replay(ctx.replay):
                     f.write(json.dumps(c) + "\n")
-            mcf = []
+            lines, blocks = execute(ctx, build_f.result(), casep, mode)
+            ctx.cov["evaluations"] = len(blocks)
+            judge(ctx, "replay", "Assurances_Trace", shard_lines(lines, 12000), par=1, what=WHAT, **kw)
+            return
+        base = {"V": "6", "C": "2", "U": "3", "RepsPerCore": "1", "Deltas": "{1, 3}", "MaxJudged": "1"}
+        if q:
+            mcs = [("u2r1", dict(base, U="2", Deltas="{1, 2}"), 3, False, False)]
         else:
-            base = {"V": "6", "C": "2", "U": "3", "RepsPerCore": "1", "Deltas": "{1, 3}", "MaxJudged": "1"}
-            if q:
-                mcs = [("u2r1", dict(base, U="2", Deltas="{1, 2}"), 3, False, False)]
-            else:
-                mcs = [("u5r1", dict(base, U="5", Deltas="{1, 2, 4, 5, 6}", MaxJudged="2"), 4, True, False),
-                       ("u3r2", dict(base, RepsPerCore="2", Deltas="{1, 2, 3}", MaxJudged="2"), 4, False, False),
-                       ("vacuity", dict(base, U="2", Deltas="{1}", MaxJudged="0"), 1, False, True)]
-            mcf = [ex.submit(mc_one, ctx, *m) for m in mcs]
-            gen_f = ex.submit(vf.gen_cases, ctx, "Assurances_Gen", {}, "cases-gen.ndjson", 600)
-            rng = vf.Rng(ctx.seed)
-            casep = ctx.tmp + "/cases.ndjson"
-            hist = [history(rng) for _ in range(2500 if q else 60000)]
-            with open(casep, "w") as f:
-                f.write(open(gen_f.result()).read())
-                for h in hist:
-                    f.write(json.dumps(h) + "\n")
+            mcs = [("u5r1", dict(base, U="5", Deltas="{1, 2, 4, 5, 6}", MaxJudged="2"), 4, True, False),
+                   ("u3r2", dict(base, RepsPerCore="2", Deltas="{1, 2, 3}", MaxJudged="2"), 4, False, False),
+                   ("vacuity", dict(base, U="2", Deltas="{1}", MaxJudged="0"), 1, False, True)]
+        mcf = [ex.submit(mc_one, ctx, *m) for m in mcs]
+        gen_f = ex.submit(vf.gen_cases, ctx, "Assurances_Gen", {}, "cases-gen.ndjson", 600)
+        rng = vf.Rng(ctx.seed)
+        casep = ctx.tmp + "/cases.ndjson"
+        hist = [history(rng) for _ in range(2500 if q else 60000)]
+        # the full-size configuration (V = 1023, C = 341): same driver, same judge
+        rngf = vf.Rng(ctx.seed + 7919)
+        casef = ctx.tmp + "/cases-full.ndjson"
+        with open(casef, "w") as f:
+            for _ in range(4 if q else 30):
+                f.write(json.dumps(history_full(rngf)) + "\n")
+        with open(casep, "w") as f:
+            f.write(open(gen_f.result()).read())
+            for h in hist:
+                f.write(json.dumps(h) + "\n")
         binp = build_f.result()
-        tp = ctx.tmp + "/trace.ndjson"
-        vf.run_driver(ctx, binp, "TestVerifAssurances", env={"VF_CASES": casep, "VF_OUT": tp, "VF_SEED": ctx.seed}, timeout=1500)
-        lines = vf.read_lines(tp)
-        blocks = [ln for ln in lines if '"ev":"Block"' in ln]
-        if any('"stage":"disputes"' in ln for ln in blocks):
-            bad = [ln for ln in blocks if '"stage":"disputes"' in ln][0]
-            raise vf.Infra("the driver's own disputes extrinsic was refused (generator / driver problem): " + bad[:400])
-        stages, errs = {}, {}
-        avail = timed = 0
-        for ln in blocks:
-            e = json.loads(ln)
-            stages[e["stage"]] = stages.get(e["stage"], 0) + 1
-            errs[e["err"] or "accepted"] = errs.get(e["err"] or "accepted", 0) + 1
-            avail += len(e["w"]) if e["stage"] in ("ok", "reports") else 0
-        ctx.cov["evaluations"] = len(blocks)
-        ctx.cov["histories"] = sum(1 for ln in lines if '"ev":"Reset"' in ln)
+        flines, fblocks = execute(ctx, binp, casef, "full")
+        ff = ex.submit(judge, ctx, "full", "Assurances_Trace", shard_lines(flines, 7 if q else 14), par=2 if q else 6,
+                       what=WHAT + " (full-size configuration)", **kw)
+        lines, blocks = execute(ctx, binp, casep, "tiny")
+        stages, errs, avail = tally(blocks)
+        fstages, ferrs, favail = tally(fblocks)
+        ctx.cov["evaluations"] = len(blocks) + len(fblocks)
+        ctx.cov["histories"] = sum(1 for ln in lines + flines if '"ev":"Reset"' in ln)
         ctx.cov["stages"] = stages
         ctx.cov["outcomes"] = errs
         ctx.cov["reports_made_available"] = avail
+        ctx.cov["full_size"] = {"blocks": len(fblocks), "stages": fstages, "outcomes": ferrs, "reports_made_available": favail}
         ctx.cov["distinct_nontrivial"] = vf.distinct_count([ln for ln in blocks if '"as":[{' in ln],
                                                            key=lambda e: [e["rho"], e["slot"] - e["tau"], e["judge"], e["as"], e["place"]])
         ctx.cov["rule"] = ("evaluations = blocks run through Disputes() + Assurance() (+ ValidateWorkReports / TransitionWorkReport) with real "
-                           "Ed25519 signatures; distinct_nontrivial = distinct (pending reports, slot distance, judged reports, assurances, "
-                           "guarantees) inputs with at least one assurance; cases = TLC-enumerated single-block partition (Assurances_Gen) + "
-                           "seeded histories of 2-8 blocks")
+                           "Ed25519 signatures, tiny (V=6, C=2) and full-size (V=1023, C=341) configurations; distinct_nontrivial = distinct "
+                           "(pending reports, slot distance, judged reports, assurances, guarantees) inputs of the tiny configuration with at "
+                           "least one assurance; cases = TLC-enumerated single-block partition (Assurances_Gen) + seeded histories of 2-8 blocks")
         ctx.cov["samples"] = [json.loads(x) for x in lines[:3]]
-        judge(ctx, "all", "Assurances_Trace", shard_lines(lines, 12000 if q else 30000), stateful=True, invariants=INVS_TRACE,
-              par=3 if q else 8, heap="3g", timeout=3000, what=WHAT)
+        judge(ctx, "all", "Assurances_Trace", shard_lines(lines, 12000 if q else 30000), par=3 if q else 8, what=WHAT, **kw)
+        ff.result()
         for f in mcf:
             f.result()
